@@ -281,4 +281,9 @@ HistBound == Len(hist) <= MaxHist
 HistBound5 == Len(hist) <= 5
 HistBound6 == Len(hist) <= 6
 Emit == Len(hist) < MaxHist \/ (PrintT(<<"B", ToJson(hist)>>) /\ FALSE)
+\* simulation: one behaviour per random trace (a CONSTRAINT would be evaluated -- and print -- for every
+\* candidate successor of the last state): stutter at MaxHist and print there
+SimNext == \/ (Len(hist) < MaxHist /\ Next)
+           \/ (Len(hist) = MaxHist /\ PrintT(<<"B", ToJson(hist)>>) /\ UNCHANGED vars)
+SimSpec == Init /\ [][SimNext]_vars
 =============================================================================
